@@ -250,6 +250,82 @@ def lastOut : List (Op α × Obs α) → Motl α → Motl α
 end arith
 end checks
 
+/-! ### missing-value-aware variants (what the driver runs at `Float`, where a key field may hold NaN)
+
+`miss` recognises a missing cell.  The reading of the statement with missing values (quantifier: "repeated and
+missing field values"): key comparison is IEEE `==` (a missing key matches nothing, a missing id duplicates
+nothing), a missing decision value is never the best one (pandas sorts missing values LAST whatever the
+direction), and a missing object number neither collides nor carries an offset.  With `miss := fun _ => false`
+these are the clause lists above (`Props/C08.lean`: `stepClausesM_no_missing`), for which the theorems are proved. -/
+section missing
+variable [BEq α] (eqv : α → α → Bool) (miss : α → Bool)
+
+section ddm
+variable [LT α] [DecidableLT α]
+
+/-- `drop_duplicates` with missing values: ids are compared with `==` (so rows with a missing id are never
+duplicates of anything: ALL of them must survive — as many rows with a missing id after as before, each a row of
+the input by `other-fields-unchanged`); a survivor with a missing decision value is allowed only if every row of
+its id misses it; otherwise rows whose decision value is missing do not compete -/
+def dropDupClausesM (fill : α → α) (dup dec : Field) (asc : Bool) (l out : Motl α) : List (String × Bool) :=
+  [("dropdup-one-row-per-id", pairwiseB (fun a b => !(a.get dup == b.get dup)) out),
+   ("other-fields-unchanged", out.all (fun q => l.any (fun p => sameB eqv fill (fun _ => false) p q))),
+   ("dropdup-every-id-survives", l.all (fun p => miss (p.get dup) || out.any (fun q => q.get dup == p.get dup))
+      && (out.filter (fun q => miss (q.get dup))).length == (l.filter (fun p => miss (p.get dup))).length),
+   ("dropdup-keeps-best-scoring-row", out.all (fun q => l.all (fun p => !(p.get dup == q.get dup) ||
+      (if miss (q.get dec) then miss (p.get dec)
+       else miss (p.get dec) ||
+        (if asc then !decide (p.get dec < q.get dec) else !decide (q.get dec < p.get dec))))))]
+
+end ddm
+
+section arithm
+variable [Add α] [Sub α] [OfNat α 0]
+
+/-- the offset of a block read off the first row that carries an object number -/
+def offsetOfM (g : α → α) : Motl α → Motl α → α
+  | p :: m, q :: b => if miss (g p.object_id) then offsetOfM g m b else q.object_id - g p.object_id
+  | _, _ => 0
+
+/-- `blockOkB` where a row without an object number stays without one and has no offset -/
+def blockOkBM (g : α → α) (m b : Motl α) : Bool :=
+  forall2B (fun p q => sameB eqv g isIdField p q &&
+    (if miss (g p.object_id) then miss q.object_id else q.object_id == g p.object_id + offsetOfM miss g m b)) m b
+
+def mergeRenumberClausesM (fill : α → α) (nat : Nat → α) (ins : List (Bool × Motl α)) (out : Motl α) : List (String × Bool) :=
+  match splitBy (ins.map (·.2)) out with
+  | none => [("other-fields-unchanged", false)]
+  | some bs =>
+    [("merge-keeps-each-inputs-grouping", forall2B (fun x b => blockOkBM eqv miss (fillIf fill x.1) x.2 b) ins bs),
+     ("merge-object-numbers-never-collide", pairwiseB disjointObjB bs),
+     ("merge-renumber-subtomo-1..N",
+        forall2B (fun (a b : α) => a == b) (out.map (·.subtomo_id))
+          ((List.range (ins.map (·.2)).flatten.length).map (fun i => nat (i + 1))))]
+
+def mergeDropDupClausesM [LT α] [DecidableLT α] (fill : α → α) (cs : List α) (ins : List (Bool × Motl α)) (out : Motl α) :
+    List (String × Bool) :=
+  let ms := shiftedInputs fill cs ins
+  [("merge-keeps-each-inputs-grouping", cs.length == ins.length),
+   ("merge-object-numbers-never-collide", pairwiseB disjointObjB (ms.map (·.2))),
+   ("other-fields-unchanged",
+      out.all (fun q => ms.any (fun x => x.2.any (fun p => sameB eqv (fillIf fill x.1) (fun _ => false) p q))))]
+  ++ dropDupClausesM eqv miss fill .subtomo_id .score false (ms.map (·.2)).flatten out
+
+def stepClausesM [LT α] [DecidableLT α] (fill : α → α) (nat : Nat → α) : Op α → Motl α → Obs α → List (String × Bool)
+  | .dropDup dup dec asc, l, o => dropDupClausesM eqv miss (fun v => v) dup dec asc l o.out
+  | .mergeRenumber b a s, l, o => mergeRenumberClausesM eqv miss fill nat (rawInputs b a s l) o.out
+  | .mergeDropDup b a s, l, o =>
+    match o.hints.find? (fun cs => (mergeDropDupClausesM eqv miss fill cs (rawInputs b a s l) o.out).all (·.2)) with
+    | some _ => []
+    | none => mergeDropDupClausesM eqv miss fill (o.hints.headD []) (rawInputs b a s l) o.out ++ [("merge-dropdup-no-certificate", false)]
+  | op, l, o => stepClauses eqv fill nat op l o
+
+def checkStepM [LT α] [DecidableLT α] (fill : α → α) (nat : Nat → α) (op : Op α) (l : Motl α) (o : Obs α) : Bool :=
+  (stepClausesM eqv miss fill nat op l o).all (·.2)
+
+end arithm
+end missing
+
 /-! ### the model's own observation chain (what the checkers are handed when the MODEL is the implementation):
 `Props/C08.lean` `check_run_accepts_model` proves `checkRun` accepts it for every history -/
 section modelchain
